@@ -42,6 +42,9 @@ type gbCase struct {
 	// Translate: the plugin runs under a custom runner in its own directory and advertises RELATIVE socket paths, which
 	// the runner's PluginToHost makes absolute (an address used untranslated does not exist on the host)
 	Translate bool `json:"translate,omitempty"`
+	// HoldDialMs: every dialled connection is kept this long before its first call (a brokered server must outlive the
+	// 5 s in which its connection info can be picked up)
+	HoldDialMs int `json:"hold_dial_ms,omitempty"`
 }
 
 func init() {
@@ -52,9 +55,9 @@ func init() {
 // ids < 1000: the host accepts and the plugin dials; ids >= 1000: the plugin accepts and the host dials
 func genGrpcBroker(o opts, mux bool) []gbCase {
 	r := hk.Rng(o.seed + 83)
-	n := 12
+	n := 13
 	if o.tier == "thorough" {
-		n = 82
+		n = 83
 	}
 	var cs []gbCase
 	pair := func(c *gbCase, t int, id uint32, acceptFirst bool, gap int) int {
@@ -131,6 +134,8 @@ func genGrpcBroker(o opts, mux bool) []gbCase {
 		c := gbCase{AutoMTLS: i%3 == 1, Events: evs, Kind: "directed", Translate: i%4 == 0, SlowServeMs: 200 * (i % 2)}
 		cs = append(cs, c)
 	}
+	// connections dialled inside the window and first used after it
+	cs = append(cs, gbCase{Kind: "directed-late-first-call", HoldDialMs: 6400, Events: []gbEvent{{0, "plugin", "accept", 1010}, {100, "host", "dial", 1010}, {0, "host", "accept", 10}, {100, "plugin", "dial", 10}}})
 	for len(cs) < n {
 		c := gbCase{AutoMTLS: r.Intn(3) == 0, Kind: "random"}
 		used := map[uint32]bool{}
@@ -200,7 +205,7 @@ func runOneGrpcBroker(c gbCase) []struct{ in, obs sx.V } {
 	set := func(i int, r result) { mu.Lock(); res[i] = r; mu.Unlock() }
 	vo := vpOpts{Proto: "grpc", Mux: c.Mux, AutoMTLS: c.AutoMTLS}
 	if c.SlowDoorMs > 0 {
-		vo.Plugin = map[string]interface{}{"delay_point": "smux.acceptknock", "delay_ms": c.SlowDoorMs}
+		vo.Plugin = map[string]interface{}{"delay_point": "smux.acceptknock,grpc.knock.sent", "delay_ms": c.SlowDoorMs}
 	}
 	var cl *plugin.Client
 	var caller vp.Caller
@@ -244,14 +249,21 @@ func runOneGrpcBroker(c gbCase) []struct{ in, obs sx.V } {
 						return
 					}
 					defer cc.Close()
-					out, err := vp.NewGRPCCaller(cc, gb).Call(vp.Req{Op: "who"})
+					if e.AtMs < 5000 { // not the fresh pairs appended at the end of every history
+						time.Sleep(time.Duration(c.HoldDialMs) * time.Millisecond)
+					}
+					out, err := vp.Bounded(vp.NewGRPCCaller(cc, gb), callBound).Call(vp.Req{Op: "who"})
 					if err != nil {
 						set(i, result{2, -1})
 						return
 					}
 					set(i, result{1, int(out.ID)})
 				case e.Side == "plugin" && e.Kind == "dial":
-					out, err := caller.Call(vp.Req{Op: "dial", ID: e.ID})
+					hold := 0
+					if e.AtMs < 5000 {
+						hold = c.HoldDialMs
+					}
+					out, err := caller.Call(vp.Req{Op: "dial", ID: e.ID, N2: hold})
 					if err != nil || out.Err != "" {
 						set(i, result{2, -1})
 						return
@@ -302,7 +314,7 @@ func runGrpcBroker(o opts, mux bool) error {
 	if mux {
 		// host-accepting direction: the host's client muxer enters AcceptKnock late (all cases of this process)
 		plugin.VerifSetHook(func(name string, id uint32) {
-			if name == "cmux.acceptknock" {
+			if name == "cmux.acceptknock" || name == "grpc.knock.sent" {
 				time.Sleep(150 * time.Millisecond)
 			}
 		})
